@@ -21,6 +21,8 @@
 //	big      all flavours at 4095..131073 elements, count-per-class model      (big.go)
 //	body-heap / body-slice  PopAll loops whose body is an ordinary, fully compared
 //	         stretch of operations (handles, indices, Peek/Pop)             (popallbody.go)
+//	elemtypes  Slice[T], Heap[T] and the generic functions over wide structs, strings,
+//	         pointers, interfaces, floats, bytes, zero-size elements          (typed.go)
 package main
 
 import (
@@ -240,6 +242,8 @@ func main() {
 	// clause audit: the body of a PopAll loop compared call by call
 	r.Cases("body-heap", r.N(20000, 500000), opt, bodyHeapCase)
 	r.Cases("body-slice", r.N(20000, 500000), opt, bodySliceCase)
+	// LESSONS class 14: element types other than the two-word item (typed.go)
+	r.Cases("elemtypes", r.N(60000, 1500000), opt, typedCase)
 
 	// anti-vacuity floors (quick tier observes 20-1000x these numbers)
 	for k, v := range map[string]int64{
@@ -408,6 +412,33 @@ func main() {
 		"body/s_in_fix_moved_up":        1000,
 		"body/s_in_fix_moved_down":      500,
 		"body/s_in_fix_out_of_range":    6000,
+		// element types: every type with every flavour, sifts over two and more levels
+		"typed/flavour Slice":         10000,
+		"typed/flavour Heap":          10000,
+		"typed/flavour generic":       10000,
+		"typed/type struct{5×int64}":  2000,
+		"typed/type [9]int":           2000,
+		"typed/type struct{16 words}": 2000,
+		"typed/type string":           2000,
+		"typed/type *struct":          2000,
+		"typed/type any":              2000,
+		"typed/type struct{string,int,*int,int,float64,[]int}": 2000,
+		"typed/type float64":   2000,
+		"typed/type uint8":     2000,
+		"typed/type struct{}":  2000,
+		"typed/type [2]string": 2000,
+		"typed/type [3]int32":  2000,
+		"typed/s_pop_depth2":   20000,
+		"typed/h_pop_depth2":   20000,
+		"typed/s_remove":       20000,
+		"typed/s_fix":          20000,
+		"typed/h_remove":       10000,
+		"typed/h_fix":          10000,
+		"typed/g_pop":          20000,
+		"typed/g_remove":       20000,
+		"typed/g_fix":          20000,
+		"typed/cases_depth3":   20000,
+		"typed/drained":        100000,
 	} {
 		r.Require(k, v)
 	}
